@@ -914,6 +914,11 @@ impl Interpreter {
         use crate::compiler::Compiler;
         use bytecode_vm::BytecodeVM;
 
+        // A previous run may have ended with an uncaught error or been abandoned by the host
+        // (which simply stopped calling step()).  Nothing of it may leak into this run: drop its
+        // VM, scopes, call-stack entries and order/await bookkeeping.
+        self.discard_previous_run();
+
         // Set main module path if this is the entry point
         if self.main_module_path.is_none() {
             self.main_module_path = module_path.clone();
@@ -1401,6 +1406,11 @@ impl Interpreter {
         use crate::compiler::Compiler;
         use bytecode_vm::BytecodeVM;
 
+        // A previous run may have ended with an uncaught error or been abandoned by the host
+        // (which simply stopped calling step()).  Nothing of it may leak into this run: drop its
+        // VM, scopes, call-stack entries and order/await bookkeeping.
+        self.discard_previous_run();
+
         // Set main module path if this is the entry point
         if self.main_module_path.is_none() {
             self.main_module_path = module_path.clone();
@@ -1456,6 +1466,27 @@ impl Interpreter {
         self.active_module_env = module_env;
 
         Ok(StepResult::Continue)
+    }
+
+    /// Drop the execution state of a run that did not finish with `Complete`
+    /// (uncaught error, or abandoned by the host), so that the interpreter is as
+    /// clean as after a completed run before the next program is prepared.
+    fn discard_previous_run(&mut self) {
+        self.active_vm = None;
+        self.active_saved_env = None;
+        self.active_module_env = None;
+        self.active_module_path = None;
+        self.env = self.global_env.cheap_clone();
+        self.env_guards.clear();
+        self.call_stack.clear();
+        self.pending_orders.clear();
+        self.cancelled_orders.clear();
+        self.order_responses.clear();
+        self.suspended_for_order = None;
+        self.wait_graph = WaitGraph::new();
+        self.promise_ids.clear();
+        self.pending_program = None;
+        self.exports.clear();
     }
 
     /// Process any pending module sources that are ready to execute.
